@@ -196,8 +196,9 @@ theorem native_oer_unsigned_eq_wide (width : Nat) (positive : Bool) (u : Nat) (h
   rw [nativeToINTEGER_unsigned_eq_wide u hu bs hw hne hm hbs]
 
 /-- `INTEGER_encode_uper` does not depend on `field_unsigned` for non-negative `long` values and
-    non-negative bounds (the wide build of `INTEGER (0..MAX)` has no specifics, the native one has
-    `field_unsigned = 1`).  Values in 2^63 .. 2^64-1: finding F172, `INTEGER_encode_uper_unsigned_relevant_cex`. -/
+    non-negative bounds (the wide build of an EXTENSIBLE unsigned range `INTEGER (0..MAX, ...)` has no specifics, the
+    native one has `field_unsigned = 1`; for `INTEGER (lb..MAX)` both descriptors have the flag since the repair of
+    F172 / F173: `native_uper_unsigned_eq_wide`).  Values in 2^63 .. 2^64-1: `INTEGER_encode_uper_unsigned_relevant_cex`. -/
 theorem INTEGER_encode_uper_unsigned_irrelevant (ct : Option PerCt) (bs : Bytes) (hw : Bytes.wf bs)
     (h0 : 0 ≤ twosVal bs) (h1 : twosVal bs < 2 ^ 63)
     (hct : ∀ c, ct = some c → 0 ≤ c.lb ∧ c.lb < 2 ^ 63 ∧ 0 ≤ c.ub ∧ c.ub < 2 ^ 63) :
@@ -225,14 +226,28 @@ theorem INTEGER_encode_uper_unsigned_irrelevant (ct : Option PerCt) (bs : Bytes)
         apply decide_eq_decide.mpr; omega
       rw [d1, d2]
 
-/-- F172: beyond `LONG_MAX` the `field_unsigned` flag is *not* irrelevant: for `INTEGER (0..MAX)` (semi-constrained,
-    lower bound 0) holding 2^63 the native descriptor (`field_unsigned`) encodes `08 80 00 …` (X.691 10.7.4, F110 repaired), while the
-    -fwide-types descriptor (no specifics) goes through `asn_INTEGER2long` and fails. -/
+/-- beyond `LONG_MAX` the `field_unsigned` flag is *not* irrelevant: for a semi-constrained range with lower bound 0
+    holding 2^63 a descriptor with `field_unsigned` encodes `08 80 00 …` (X.691 10.7.4, F110 repaired), while a
+    descriptor without it goes through `asn_INTEGER2long` and fails.  This was finding F172 - the -fwide-types descriptor
+    of `INTEGER (0..MAX)` had no specifics -, repaired: asn1c emits `field_unsigned` for the `INTEGER_t` of a (lb..MAX)
+    range as well (`ref_F172_witness`).  It still describes the extensible range `INTEGER (0..MAX, ...)` under
+    -fwide-types (proposed finding F174). -/
 theorem INTEGER_encode_uper_unsigned_relevant_cex :
     twosVal [0, 0x80, 0, 0, 0, 0, 0, 0, 0] = 2 ^ 63 ∧
     NativeInteger_encode_uper true (some ⟨false, true, -1, 0, 0⟩) (2 ^ 63) =
       some (natBits 8 8 ++ bytesToBits [0x80, 0, 0, 0, 0, 0, 0, 0]) ∧
     INTEGER_encode_uper false (some ⟨false, true, -1, 0, 0⟩) [0, 0x80, 0, 0, 0, 0, 0, 0, 0] = none := by decide
+
+/-- the former witness of finding F172, `U ::= INTEGER (0..MAX)` holding 2^63 (and 2^64-1): with `field_unsigned` in
+    the -fwide-types descriptor too, `INTEGER_encode_uper` on the `INTEGER_t` gives the bits of the native encoder,
+    `08 80 00 00 00 00 00 00 00` (it was an encoding failure) -/
+theorem ref_F172_witness :
+    INTEGER_encode_uper true (some ⟨false, true, -1, 0, 0⟩) [0, 0x80, 0, 0, 0, 0, 0, 0, 0] =
+      NativeInteger_encode_uper true (some ⟨false, true, -1, 0, 0⟩) (2 ^ 63) ∧
+    INTEGER_encode_uper true (some ⟨false, true, -1, 0, 0⟩) [0, 0x80, 0, 0, 0, 0, 0, 0, 0] =
+      some (bytesToBits [0x08, 0x80, 0, 0, 0, 0, 0, 0, 0]) ∧
+    INTEGER_encode_uper true (some ⟨false, true, -1, 0, 0⟩) [0, 0xff, 0xff, 0xff, 0xff, 0xff, 0xff, 0xff, 0xff] =
+      NativeInteger_encode_uper true (some ⟨false, true, -1, 0, 0⟩) (2 ^ 64 - 1) := by decide
 
 /-- C06 (finding F18 repaired): `INTEGER_encode_uper` sees the stored octets only through the leading-octet
     strip loop: redundant leading `00` / `FF` octets never reach the wire.  (`hu` is no longer needed since `asn_INTEGER2ulong` rejects negative INTEGERs — F3 repaired — and is kept for
@@ -419,6 +434,14 @@ theorem native_xer_unsigned_eq_wide (sN sW : IntSpecs) (hN : sN.unsigned = true)
   unfold NativeInteger_encode_xer INTEGER_encode_xer
   simp only [hN, hW, hstrict, if_true, e1, value2enum, hmap, List.find?_nil, Option.map_none, e2,
     Bool.false_eq_true, if_false, ite_self]
+
+/-- the former witness of finding F173, `U ::= INTEGER (0..MAX)` holding 2^63: with `field_unsigned` in the
+    -fwide-types descriptor too, `INTEGER__dump` prints the decimal numeral the native `%lu` prints (without the flag
+    `asn_INTEGER2imax` fails and the long form `00:80:..` was printed - outside this model: `none`) -/
+theorem ref_F173_witness :
+    INTEGER_encode_xer (some ⟨[], 0, false, true⟩) [0, 0x80, 0, 0, 0, 0, 0, 0, 0] = some (asciiOf "9223372036854775808") ∧
+    NativeInteger_encode_xer (some ⟨[], 0, false, true⟩) (2 ^ 63) = some (asciiOf "9223372036854775808") ∧
+    INTEGER_encode_xer none [0, 0x80, 0, 0, 0, 0, 0, 0, 0] = none := by decide
 
 /-! ### ENUMERATED: the wide codecs convert with `asn_INTEGER2long` and call the native ones -/
 
